@@ -64,4 +64,9 @@ ModelKeeps(sc) ==
   /\ \A c \in Range(sc.claims) : (IF sc.ranks[c[1]] # sc.ranks[c[2]] THEN sc.ranks[c[1]] < sc.ranks[c[2]] ELSE KeyCmp(sc.names[c[1]], sc.names[c[2]]) < 0)
   /\ SafeSet(sc.names) => \A i, j \in 1..Len(sc.names) : KeyCmp(sc.names[i], sc.names[j]) = 0 => ZeroNorm(sc.names[i]) = ZeroNorm(sc.names[j])
 ModelOK == ModelKeeps(Scenario)
+\* a common prefix that ends in a separator does not change the order of two names (its last text piece merges with the first text piece
+\* of either name, every later piece keeps its place): why the conformance harness may hide the exported names behind prefixes holding
+\* hundreds of numbers - names far longer than TLC could tokenise itself - and judge the outcome on the names as exported
+Pads == {<<"1", "_">>, <<"1", "_", "1", "_">>, <<"7", ".", "s">>, <<"x", "_">>, <<"I", "_">>, <<"I", "_", "2", "_">>}
+PadLemma == \A P \in Pads : \A i, j \in 1..Len(Scenario.names) : KeyCmp(P \o Scenario.names[i], P \o Scenario.names[j]) = KeyCmp(Scenario.names[i], Scenario.names[j])
 ====
